@@ -23,11 +23,11 @@ Definition result_eqb (a b : result) : bool :=
   | _, _ => false
   end.
 
-(* Well-formed round: reward within the supply range, a positive vote total,
+(* Well-formed round: reward within the supply range, a non-negative vote total,
    every recorded vote between 0 and the total, at most 200 members, a positive
    arbiter count, no arbiter on a panicking path. *)
 Definition inputs_ok (s : st) (v : version) (reward : Z) : bool :=
-  (0 <=? reward) && (reward <=? 2 ^ 55) && (0 <? s_total s) &&
+  (0 <=? reward) && (reward <=? 2 ^ 55) && (0 <=? s_total s) &&
   forallb (fun kv => (0 <=? snd kv) && (snd kv <=? s_total s)) (s_votes s) &&
   (Z.of_nat (length (s_arbs s) + length (s_cands s)) <=? 200) &&
   (0 <? count_of s v) && (count_of s v <=? 1000) &&
